@@ -172,7 +172,8 @@ def run_session(case):
         return rec
 
     try:
-        ds = Dataset.from_raw_list(nm.raw_dataset(case["D"]), name="session")
+        entry = case.get("entry", 0) % 7
+        ds = core.build_dataset(nm.raw_dataset(case["D"]), 6 if entry in (4, 5) else entry, name="session")
         out = "ok"
     except Exception as ex:
         ds, out = None, type(ex).__name__
